@@ -32,7 +32,10 @@ Targets ==
           Nd("attr", 2, <<>>, "", "c", <<50>>, ""), Nd("elem", 2, <<>>, "", "b", <<>>, ""), Nd("elem", 2, <<>>, "", "b", <<>>, "") >>,
        \* target 4: <!--k--><a b="v">x</a><?t?>
        << Nd("doc", 0, <<2, 3, 6>>, "", "", <<>>, ""), Nd("comm", 1, <<>>, "", "", <<107>>, ""), Nd("elem", 1, <<4, 5>>, "", "a", <<>>, ""),
-          Nd("attr", 3, <<>>, "", "b", <<118>>, ""), Nd("text", 3, <<>>, "", "", <<120>>, ""), Nd("pi", 1, <<>>, "", "t", <<>>, "") >> >>
+          Nd("attr", 3, <<>>, "", "b", <<118>>, ""), Nd("text", 3, <<>>, "", "", <<120>>, ""), Nd("pi", 1, <<>>, "", "t", <<>>, "") >>,
+       \* target 5: <!--k--><?t?><a/><!--m--><?u?>   (two leading and two trailing items)
+       << Nd("doc", 0, <<2, 3, 4, 5, 6>>, "", "", <<>>, ""), Nd("comm", 1, <<>>, "", "", <<107>>, ""), Nd("pi", 1, <<>>, "", "t", <<>>, ""),
+          Nd("elem", 1, <<>>, "", "a", <<>>, ""), Nd("comm", 1, <<>>, "", "", <<109>>, ""), Nd("pi", 1, <<>>, "", "u", <<>>, "") >> >>
 D == Targets[Target]
 TNormal == {t \in 1..Len(D) : IsNormal(D, t)}
 TAbn == {t \in 1..Len(D) : ~IsNormal(D, t)}
